@@ -226,4 +226,37 @@ def fitColumns [BEq χ] (dflt : δ) (cfg : DistConfig χ δ)
   cols.mapM fun (col, getInstance, fit, fitGaussian) =>
     (fitColumn getInstance fit fitGaussian (getDistributionForColumn dflt cfg col)).map fun m => (col, m)
 
+/-! ## 5. Fit histories: the configuration is not part of what `fit` changes -/
+
+/-- The part of a `GaussianMultivariate` object that `fit` reads and writes: `fit` reads
+    `distribution` and overwrites `columns` / `univariates`; it never assigns `distribution`
+    (nor writes into the dict it holds). -/
+structure GMState (χ δ μ : Type) where
+  distribution : DistConfig χ δ
+  fitted : Option (List (χ × μ))
+
+/-- one data frame as the model sees it: its columns, each with the oracles for that data. -/
+abbrev Frame (χ δ ι μ : Type) := List (χ × (δ → Except Err ι) × (ι → Except Err μ) × Except Err μ)
+
+/-- `GaussianMultivariate.fit` on a frame (the `_fit_columns` part): a failing fit raises and
+    leaves the object as it was. -/
+def gmFit [BEq χ] (dflt : δ) (s : GMState χ δ μ) (frame : Frame χ δ ι μ) : Except Err (GMState χ δ μ) :=
+  match fitColumns dflt s.distribution frame with
+  | .ok ms => .ok { s with fitted := some ms }
+  | .error e => .error e
+
+/-- a history of fits of the same object, each on its own frame; per fit the outcome, and the
+    final state (a failed fit does not stop the history: the caller may catch and re-fit). -/
+def gmFitHistory [BEq χ] (dflt : δ) :
+    GMState χ δ μ → List (Frame χ δ ι μ) → List (Except Err (List (χ × μ))) × GMState χ δ μ
+  | s, [] => ([], s)
+  | s, f :: fs =>
+    match gmFit dflt s f with
+    | .ok s' =>
+      let (rs, sFinal) := gmFitHistory dflt s' fs
+      ((match s'.fitted with | some ms => .ok ms | none => .ok []) :: rs, sFinal)
+    | .error e =>
+      let (rs, sFinal) := gmFitHistory dflt s fs
+      (.error e :: rs, sFinal)
+
 end CopVerif.Model
